@@ -2,17 +2,19 @@
 
 
 def jobs(tier):
-    q = [dict(name='api-args', harness='c09_api_args.c', entry='main_c09', defines={}, timeout=600, max_steps=3_000_000, hang_is_finding=True,
-              require_tags={'end': 19})]
+    q = [dict(name='api-args', harness='c09_api_args.c', entry='main_c09', defines=dict(OP_LO=0, OP_HI=18), timeout=600, max_steps=3_000_000,
+              hang_is_finding=True, require_tags={'end': 19}),
+         dict(name='api-args-stats', harness='c09_api_args.c', entry='main_c09', defines=dict(OP_LO=19, OP_HI=24), timeout=900, max_steps=3_000_000,
+              hang_is_finding=True, require_tags={'end': 6})]
     return q
 
 
 BOUNDS = {
-    'quick': '19 entry-point groups on a fixed valid 5-node 2-tree sequence; every identifier argument a free int32, '
+    'quick': '25 entry-point groups (the last 6: allele_frequency_spectrum, divergence_matrix, pair_coalescence_counts, genealogical_nearest_neighbours, mean_descendants, map_mutations with free sample-set members, windows, set indexes and genotypes) on a fixed valid 5-node 2-tree sequence; every identifier argument a free int32, '
              'positions integer-valued or NaN/+inf/-inf, list lengths 0-2, buffer sizes 0-16',
     'thorough': 'as quick',
 }
-OUTSIDE = ['argument parsing in _tskitmodule.c (CPython API)', 'allocation failure', 'larger tree sequences']
+OUTSIDE = ['argument parsing in _tskitmodule.c (CPython API)', 'arguments the Python layer computes itself (e.g. the node_bin_map of pair_coalescence_counts: only null or in-range bins)', 'allocation failure', 'larger tree sequences']
 ASSUMPTIONS = ['memory monitors of engine/llsym.py (bounds, use-after-free, double free, uninitialised read, abort)',
                'counterexamples replayed under clang ASan+UBSan']
 
